@@ -257,11 +257,15 @@ func (x *run) checkC11() *Failure {
 		close int64
 	}
 	owners := map[int][]item{} // -1 = provider singletons
+	var neverClosed []*kit.Entry
 	for _, e := range x.containerMade() {
 		if !kit.IsDisposable(e.Impl) {
 			continue
 		}
 		cs := e.CloseSeqs()
+		if len(cs) == 0 && x.M.Regs[e.Reg].Life != kit.Singleton {
+			neverClosed = append(neverClosed, e)
+		}
 		if len(cs) != 1 {
 			continue // C10's business
 		}
@@ -311,7 +315,15 @@ func (x *run) checkC11() *Failure {
 			}
 		}
 	}
-	// (3) every scope before any singleton
+	// (3) every scope before any singleton - in particular every scope is disposed at all by
+	// the time the provider's Close disposes the singletons
+	if x.R.PClosed && x.R.PCloseEnd != 0 && len(owners[-1]) > 0 {
+		for _, e := range neverClosed {
+			if rec := x.R.ScopeRecOf(e.ScopeTag); e.ScopeTag == 0 || (rec != nil && rec.Created) {
+				return fail("C11", "scopes-before-singletons", "scope-never-disposed", "the provider's Close disposed singleton %v, but %v of scope s%d was never closed: that scope was not disposed before the singletons (or at all)", owners[-1][0].e, e, e.ScopeTag)
+			}
+		}
+	}
 	for o, items := range owners {
 		if o == -1 {
 			continue
